@@ -102,11 +102,12 @@ class Sim:
         self.faults = [dict(f, fired=False) for f in scn.get("faults", [])]
         self.stretch = [dict(s, used=False) for s in scn.get("stretch", [])]
         self.ghost = {}
+        self.mtime = {}  # artefact base name -> virtual time of its last modification
         self.rng_tie = core.rng_for(scn["seed"], "tie")
         self.cache = core.scratch_dir("jitcache-")
         self.tmp = core.scratch_dir("jittmp-")
         self.fault_free = not [f for f in self.faults if f["kind"] != "stall"] and not any(
-            p["kind"] != "warm" for p in scn.get("pre", []))
+            p["kind"] not in ("warm", "stale-failed") for p in scn.get("pre", []))
         self.keep_cache = False
         self.mode = scn.get("mode", "C14")
         self.sim_seconds = 0.0
@@ -482,6 +483,17 @@ class Sim:
                 self.bump("probe_waiter_loaded_after_builder_killed")
         self.log.add(*ev)
 
+        # virtual file times: what a later stat() of this artefact reports
+        if base is not None and ans["act"] == "go":
+            if (kind == "open" and any(c in msg.get("mode", "") for c in "wxa+")
+                    and not ("x" in msg.get("mode", "") and os.path.exists(self.path(base)))) \
+                    or kind in ("write", "close", "utime", "spawn-compile-end", "spawn-link-end"):
+                self.mtime[self.norm(base)] = self.now
+            elif kind in ("replace", "rename") and msg.get("dst"):
+                self.mtime[self.norm(msg["dst"])] = self.mtime.pop(self.norm(base), self.now)
+            elif kind == "stat":
+                ans["mtime"] = self.mtime.get(self.norm(base), -3600.0)
+
         # ---- let it happen --------------------------------------------------------------
         if kind in ("spawn-compile", "spawn-link") and acts_normally:
             ans["memo"] = self.memo_dir
@@ -740,8 +752,9 @@ class Sim:
                     self.violate("H-ALL", f"fault-free run: process {p.idx} request {o['req']} ended with "
                                           f"{o['result']} {o.get('exc')}: {o.get('msg')}")
             # H-ONE
+            requested = {self.golden[o["req"]]["module"] for p in self.procs for o in p.outcomes}
             for m, gh in self.ghost.items():
-                want = 0 if gh["warm"] else 1
+                want = 0 if (gh["warm"] or m not in requested) else 1
                 if gh["compile_spawns"] != want or gh["link_spawns"] != want:
                     self.violate("H-ONE", f"fault-free run: module {m}: {gh['compile_spawns']} compile and "
                                           f"{gh['link_spawns']} link spawns, expected {want} each "
